@@ -11,7 +11,7 @@ use crate::ops::*;
 
 fn c14_cfg(tier: Tier) -> ProgCfg {
     ProgCfg {
-        mix: OpMix { write: 8, abandon: 10, read: 1, meta: 1, remove: 1, ..OpMix::NONE },
+        mix: OpMix { write: 8, abandon: 10, read: 1, meta: 1, remove: 1, two_writers: 1, ..OpMix::NONE },
         wmix: WriteMix { bad_decls: true, meta: true, by_hash: true, rich_matching: false, interfere: false },
         sizes: tier.pick(SizeMix::Normal, SizeMix::Boundary),
         keys: (1, 3),
